@@ -30,6 +30,7 @@ class Leaf:
     exit: str = "fall"                                   # fall | continue | break | return | raise
     value: Optional[sp.Expr] = None                      # return value
     snaps: Dict[int, Tuple[Dict[str, sp.Expr], int]] = field(default_factory=dict)   # id(loop stmt) -> (env, #conds) on entry
+    store_at: Dict[int, Tuple[sp.Expr, sp.Expr]] = field(default_factory=dict)       # id(store stmt) -> (base value, index value)
 
     def cond(self) -> sp.Expr:
         cs = []
@@ -68,6 +69,10 @@ class PathTable:
                 return sp.Integer(0)
             if nm in ("ones_like", "ones") and isinstance(call.func, ast.Attribute):
                 return sp.Integer(1)
+            if isinstance(call.func, ast.Name) and call.func.id in TT.env and not any(isinstance(a, ast.Starred) for a in call.args):
+                # a local bound to a function value (e.g. pre_fxn, post_fxn = factory(...)): name it by its value
+                return sp.Function("call")(TT.env[call.func.id], *[TT.tr(a) for a in call.args],
+                                           *[sp.Function("kw_" + k.arg)(TT.tr(k.value)) for k in call.keywords if k.arg])
             if self.prog is not None and isinstance(call.func, ast.Name) and call.func.id not in TT.env and depth < self.inline_depth:
                 r = self.prog.resolve_name(self.module, call.func.id) if self.module is not None else None
                 if r and r[0] == "func":
@@ -121,7 +126,7 @@ class PathTable:
         return cur
 
     def _copy(self, l: Leaf) -> Leaf:
-        return Leaf(list(l.conds), dict(l.env), list(l.events), l.exit, l.value, dict(l.snaps))
+        return Leaf(list(l.conds), dict(l.env), list(l.events), l.exit, l.value, dict(l.snaps), dict(l.store_at))
 
     def _stmt(self, st: ast.stmt, l: Leaf, depth: int) -> List[Leaf]:
         T = self._T(l.env, depth)
@@ -140,6 +145,11 @@ class PathTable:
                         l.env[e.id] = vv
             else:
                 l.events.append(("store", unparse(t), v, st))
+                if isinstance(t, ast.Subscript):
+                    try:
+                        l.store_at[id(st)] = (T.tr(t.value), T._index(t.slice))
+                    except AnalysisError:
+                        pass
             return [l]
         if isinstance(st, ast.AugAssign):
             name = unparse(st.target)
